@@ -2823,6 +2823,34 @@ class Processor:
             prefix="Processor::_update_node:  ",
             data={ "__FROM__": change_node, "___TO___": new_node })
 
+        # An alias of the changed node which is used as a Hash key is renamed
+        # along with it.  As when renaming any other key, the new name must
+        # not already exist in its Hash.  Check before anything is changed.
+        def renames_onto_existing_key(data):
+            if isinstance(data, dict):
+                is_commented = isinstance(data, (CommentedMap, ryod))
+                for key in data.keys():
+                    if (key is change_node
+                            and (hasattr(key, "anchor") or not is_commented)):
+                        for other in data.keys():
+                            if other is not key and other == new_node:
+                                return True
+                for val in data.values():
+                    if (val is not change_node
+                            and renames_onto_existing_key(val)):
+                        return True
+            elif isinstance(data, list):
+                for item in data:
+                    if renames_onto_existing_key(item):
+                        return True
+            return False
+
+        if renames_onto_existing_key(self.data):
+            raise DuplicateKeyYAMLPathException((
+                "Key, {}, already exists at the same document level as a key"
+                " which is an alias of the changed node at"
+                ).format(new_node), str(parentref))
+
         recurse(self.data, parent, parentref, change_node, new_node)
 
         self.logger.debug(
